@@ -295,6 +295,7 @@ def _transform(dst, how):
     import ast
     defs = _unique_defs(dst) if how == 'kwcalls' else None
     priv = _private_defs(dst) if how == 'renamepriv' else None
+    pplan = _param_rename_plan(dst) if how == 'renameparams' else None
     for dp, dn, fn in os.walk(dst):
         for f in fn:
             if not f.endswith('.py'):
@@ -326,6 +327,14 @@ def _transform(dst, how):
                 new = extract_tails(src)
             elif how == 'flags':
                 new = forelse_to_flags(src)
+            elif how == 'renameparams':
+                new = rename_private_params(src, pplan)
+            elif how == 'heads':
+                new = extract_heads(src)
+            elif how == 'yoda':
+                new = yoda_and_demorgan(src)
+            elif how == 'predicates':
+                new = extract_predicates(src)
             elif how == 'nestguards':
                 new = nest_guards(src)
             elif how == 'ifexpstmt':
@@ -1089,6 +1098,358 @@ def ifexp_to_statements(src):
     return ast.unparse(ast.fix_missing_locations(tree)) + '\n'
 
 
+def yoda_and_demorgan(src):
+    """`x == 1` -> `1 == x` (==, !=, is, is not with a constant on the right),
+    `a <= x <= b` with a plain name in the middle -> `a <= x and x <= b`,
+    `not (a and b)` -> `not a or not b` (and the dual) in the tests of if /
+    while statements."""
+    import ast
+    import copy
+    tree = ast.parse(src)
+
+    class T(ast.NodeTransformer):
+        def visit_Compare(self, n):
+            self.generic_visit(n)
+            if len(n.ops) == 1 and isinstance(
+                    n.ops[0], (ast.Eq, ast.NotEq, ast.Is, ast.IsNot)) and \
+                    isinstance(n.comparators[0], ast.Constant) and \
+                    not isinstance(n.left, ast.Constant):
+                return ast.copy_location(ast.Compare(
+                    left=n.comparators[0], ops=n.ops,
+                    comparators=[n.left]), n)
+            if len(n.ops) == 2 and isinstance(
+                    n.comparators[0], ast.Name) and all(isinstance(
+                        o, (ast.Lt, ast.LtE, ast.Gt, ast.GtE))
+                        for o in n.ops):
+                mid = n.comparators[0]
+                return ast.copy_location(ast.BoolOp(op=ast.And(), values=[
+                    ast.Compare(left=n.left, ops=[n.ops[0]],
+                                comparators=[mid]),
+                    ast.Compare(left=copy.deepcopy(mid), ops=[n.ops[1]],
+                                comparators=[n.comparators[1]])]), n)
+            return n
+
+    def demorgan(t):
+        if isinstance(t, ast.UnaryOp) and isinstance(
+                t.op, ast.Not) and isinstance(t.operand, ast.BoolOp):
+            b = t.operand
+            new_op = ast.Or() if isinstance(b.op, ast.And) else ast.And()
+            return ast.BoolOp(op=new_op, values=[
+                ast.UnaryOp(op=ast.Not(), operand=v) for v in b.values])
+        return t
+
+    tree = T().visit(tree)
+    for n in ast.walk(tree):
+        if isinstance(n, (ast.If, ast.While)):
+            n.test = demorgan(n.test)
+    return ast.unparse(ast.fix_missing_locations(tree)) + '\n'
+
+
+def extract_predicates(src):
+    """The test of an `if` statement that combines conditions over plain
+    local names becomes a call of a new private module-level predicate."""
+    import ast
+    tree = ast.parse(src)
+    n = [0]
+    new_defs = []
+
+    def pure(e):
+        for x in ast.walk(e):
+            if isinstance(x, (ast.Call, ast.Lambda, ast.Yield, ast.Await,
+                              ast.NamedExpr, ast.ListComp, ast.SetComp,
+                              ast.DictComp, ast.GeneratorExp, ast.Starred)):
+                # isinstance / len are fine
+                if isinstance(x, ast.Call) and isinstance(
+                        x.func, ast.Name) and x.func.id in (
+                        'isinstance', 'len', 'hasattr'):
+                    continue
+                return False
+        return True
+
+    def locals_of(fn):
+        return {a.arg for a in ast.walk(fn.args)
+                if isinstance(a, ast.arg)} | {
+            x.id for x in ast.walk(fn) if isinstance(x, ast.Name)
+            and isinstance(x.ctx, ast.Store)} | {
+            (a.asname or a.name).split('.')[0] for a in ast.walk(fn)
+            if isinstance(a, ast.alias)} | {
+            d.name for d in ast.walk(fn) if isinstance(
+                d, (ast.FunctionDef, ast.ClassDef)) and d is not fn} | {
+            h.name for h in ast.walk(fn) if isinstance(
+                h, ast.ExceptHandler) and h.name}
+
+    class F(ast.NodeTransformer):
+        def __init__(self):
+            self.stack = []
+
+        def visit_FunctionDef(self, fn):
+            self.stack.append(locals_of(fn))
+            self.generic_visit(fn)
+            local = set().union(*self.stack)
+            self.stack.pop()
+            own = [x for x in ast.walk(fn)]
+            inner = {id(y) for d in ast.walk(fn) if isinstance(
+                d, (ast.FunctionDef, ast.Lambda)) and d is not fn
+                for y in ast.walk(d)}
+            for node in own:
+                if id(node) in inner:
+                    continue      # handled when that function was visited
+                if isinstance(node, ast.If) and isinstance(
+                        node.test, ast.BoolOp) and pure(node.test):
+                    names = []
+                    for x in ast.walk(node.test):
+                        if isinstance(x, ast.Name) and x.id in local and \
+                                x.id not in names:
+                            names.append(x.id)
+                    if not names:
+                        continue
+                    n[0] += 1
+                    pname = '_p%d_q4' % n[0]
+                    new_defs.append(ast.FunctionDef(
+                        name=pname, args=ast.arguments(
+                            posonlyargs=[], args=[ast.arg(arg=a)
+                                                  for a in names],
+                            vararg=None, kwonlyargs=[], kw_defaults=[],
+                            kwarg=None, defaults=[]),
+                        body=[ast.Return(value=node.test)],
+                        decorator_list=[], returns=None, type_comment=None))
+                    node.test = ast.Call(
+                        func=ast.Name(id=pname, ctx=ast.Load()),
+                        args=[ast.Name(id=a, ctx=ast.Load()) for a in names],
+                        keywords=[])
+            return fn
+
+        def visit_ClassDef(self, c):
+            # class-level names are not visible in methods: no scope pushed
+            self.generic_visit(c)
+            return c
+
+    tree = F().visit(tree)
+    # the predicates go after the imports / module constants they may use:
+    # at the end of the module (they are only called at run time)
+    tree.body = tree.body + new_defs
+    return ast.unparse(ast.fix_missing_locations(tree)) + '\n'
+
+
+def extract_heads(src):
+    """The first half of every longer function becomes a new private helper
+    that returns the locals the second half needs: `a, b = _h(x, y)`."""
+    import ast
+    tree = ast.parse(src)
+
+    def bound_names(stmts):
+        out = set()
+        work = list(stmts)
+        while work:
+            n = work.pop()
+            if isinstance(n, (ast.FunctionDef, ast.AsyncFunctionDef,
+                              ast.ClassDef)):
+                out.add(n.name)
+                continue
+            if isinstance(n, (ast.Lambda, ast.ListComp, ast.SetComp,
+                              ast.DictComp, ast.GeneratorExp)):
+                continue
+            if isinstance(n, ast.Name) and isinstance(
+                    n.ctx, (ast.Store, ast.Del)):
+                out.add(n.id)
+            elif isinstance(n, ast.alias):
+                out.add((n.asname or n.name).split('.')[0])
+            elif isinstance(n, ast.ExceptHandler) and n.name:
+                out.add(n.name)
+            work.extend(ast.iter_child_nodes(n))
+        return out
+
+    def flow_free(stmts):
+        # no return / yield / super() / deletion in the part that moves
+        for st in stmts:
+            for n in ast.walk(st):
+                if isinstance(n, (ast.Return, ast.Yield, ast.YieldFrom,
+                                  ast.Await, ast.Global, ast.Nonlocal,
+                                  ast.Delete)):
+                    return False
+                if isinstance(n, ast.Call) and isinstance(
+                        n.func, ast.Name) and n.func.id in (
+                        'super', 'locals', 'vars', 'eval', 'exec'):
+                    return False
+                if isinstance(n, ast.Name) and n.id == '__class__':
+                    return False
+        return True
+
+    def split(fn, in_class):
+        body = fn.body
+        doc = 1 if (body and isinstance(body[0], ast.Expr) and isinstance(
+            body[0].value, ast.Constant) and isinstance(
+            body[0].value.value, str)) else 0
+        real = body[doc:]
+        if len(real) < 4 or any(isinstance(n, (ast.Yield, ast.YieldFrom))
+                                for n in ast.walk(fn)):
+            return None
+        k = len(real) // 2
+        head, tail = real[:k], real[k:]
+        if not flow_free(head):
+            return None
+        a = fn.args
+        params = [x.arg for x in a.posonlyargs + a.args + a.kwonlyargs]
+        if a.vararg:
+            params.append(a.vararg.arg)
+        if a.kwarg:
+            params.append(a.kwarg.arg)
+        is_static = any(isinstance(d, ast.Name) and d.id in (
+            'staticmethod', 'classmethod') for d in fn.decorator_list)
+        if in_class and (is_static or not params):
+            return None
+        # names the head binds on every path (top-level simple statements)
+        sure = set()
+        for st in head:
+            if isinstance(st, (ast.Assign, ast.AnnAssign, ast.Import,
+                               ast.ImportFrom, ast.FunctionDef)):
+                sure |= bound_names([st])
+        maybe = bound_names(head) - sure
+        tail_names = {n.id for st in tail for n in ast.walk(st)
+                      if isinstance(n, ast.Name)}
+        if maybe & tail_names:
+            return None       # bound on some paths only: leave it
+        outs = [v for v in sorted(sure) if v in tail_names]
+        if not outs:
+            return None
+        selfn = params[0] if in_class else None
+        used = []
+        for st in head:
+            for n in ast.walk(st):
+                if isinstance(n, ast.Name) and n.id in params and \
+                        n.id not in used and n.id != selfn:
+                    used.append(n.id)
+        name = '_h7_%s' % fn.name
+        hp = ([ast.arg(arg=selfn)] if selfn else []) + [
+            ast.arg(arg=u) for u in used]
+        ret = ast.Return(value=ast.Tuple(
+            elts=[ast.Name(id=v, ctx=ast.Load()) for v in outs],
+            ctx=ast.Load()))
+        helper = ast.FunctionDef(
+            name=name, args=ast.arguments(
+                posonlyargs=[], args=hp, vararg=None, kwonlyargs=[],
+                kw_defaults=[], kwarg=None, defaults=[]),
+            body=head + [ret], decorator_list=[], returns=None,
+            type_comment=None)
+        func = ast.Attribute(value=ast.Name(id=selfn, ctx=ast.Load()),
+                             attr=name, ctx=ast.Load()) if selfn else \
+            ast.Name(id=name, ctx=ast.Load())
+        call = ast.Assign(
+            targets=[ast.Tuple(elts=[ast.Name(id=v, ctx=ast.Store())
+                                     for v in outs], ctx=ast.Store())],
+            value=ast.Call(func=func, args=[ast.Name(id=u, ctx=ast.Load())
+                                            for u in used], keywords=[]))
+        fn.body = body[:doc] + [call] + tail
+        return helper
+
+    def do(stmts, in_class):
+        out = []
+        for st in stmts:
+            if isinstance(st, ast.FunctionDef):
+                h = split(st, in_class)
+                if h is not None:
+                    out.append(h)
+            elif isinstance(st, ast.ClassDef) and not in_class:
+                st.body = do(st.body, True)
+            out.append(st)
+        return out
+
+    tree.body = do(tree.body, False)
+    return ast.unparse(ast.fix_missing_locations(tree)) + '\n'
+
+
+def _param_rename_plan(dst):
+    """Private functions / methods of the package copy whose parameters can be
+    renamed safely: never called with keyword or ** arguments anywhere."""
+    import ast
+    kw_called = set()
+    names = set()
+    for dp, dn, fn in os.walk(dst):
+        for f in fn:
+            if not f.endswith('.py'):
+                continue
+            with open(os.path.join(dp, f)) as fh:
+                tree = ast.parse(fh.read())
+            for n in ast.walk(tree):
+                if isinstance(n, ast.Call) and n.keywords:
+                    f_ = n.func
+                    nm = f_.id if isinstance(f_, ast.Name) else (
+                        f_.attr if isinstance(f_, ast.Attribute) else None)
+                    if nm:
+                        kw_called.add(nm)
+                    # functools.partial(f, x=..) binds by keyword too
+                    for a in n.args:
+                        if isinstance(a, ast.Name):
+                            kw_called.add(a.id)
+                        elif isinstance(a, ast.Attribute):
+                            kw_called.add(a.attr)
+                if isinstance(n, ast.FunctionDef) and n.name.startswith(
+                        '_') and not n.name.startswith('__'):
+                    names.add(n.name)
+    return names - kw_called
+
+
+def rename_private_params(src, plan):
+    """Parameters of private functions and methods get new names (`x` ->
+    `x_pr6`), every use inside the function updated."""
+    import ast
+    tree = ast.parse(src)
+    SCOPES = (ast.FunctionDef, ast.AsyncFunctionDef, ast.Lambda)
+
+    def rename_in(node, mapping):
+        # nested scopes that re-bind the name as their own parameter keep it
+        for child in ast.iter_child_nodes(node):
+            if isinstance(child, SCOPES):
+                own = {a.arg for a in ast.walk(child.args)
+                       if isinstance(a, ast.arg)}
+                sub = {k: v for k, v in mapping.items() if k not in own}
+                for d in child.args.defaults + [
+                        x for x in child.args.kw_defaults if x is not None]:
+                    rename_expr(d, mapping)
+                body = child.body if isinstance(child.body, list) \
+                    else [child.body]
+                for b in body:
+                    rename_expr(b, sub)
+                    rename_in(b, sub)
+                continue
+            if isinstance(child, ast.Name) and child.id in mapping:
+                child.id = mapping[child.id]
+            rename_in(child, mapping)
+
+    def rename_expr(e, mapping):
+        if isinstance(e, ast.Name) and e.id in mapping:
+            e.id = mapping[e.id]
+
+    def visit(stmts, in_class):
+        for st in stmts:
+            if isinstance(st, ast.ClassDef):
+                visit(st.body, True)
+            elif isinstance(st, ast.FunctionDef) and st.name in plan and \
+                    not st.args.kwarg and not st.args.kwonlyargs and not any(
+                    isinstance(n, (ast.Global, ast.Nonlocal))
+                    for n in ast.walk(st)) and not any(
+                    isinstance(n, ast.Call) and isinstance(
+                        n.func, ast.Name) and n.func.id in (
+                        'locals', 'vars', 'eval', 'exec')
+                    for n in ast.walk(st)):
+                params = [a for a in st.args.posonlyargs + st.args.args]
+                if in_class and params and not any(
+                        isinstance(d, ast.Name) and d.id == 'staticmethod'
+                        for d in st.decorator_list):
+                    params = params[1:]
+                if st.args.vararg:
+                    params.append(st.args.vararg)
+                mapping = {a.arg: a.arg + '_pr6' for a in params}
+                for a in params:
+                    a.arg = mapping[a.arg]
+                for b in st.body:
+                    rename_expr(b, mapping)
+                    rename_in(b, mapping)
+
+    visit(tree.body, False)
+    return ast.unparse(ast.fix_missing_locations(tree)) + '\n'
+
+
 def rename_import_aliases(src):
     """`import numpy as np` -> `import numpy as np_al9` (and every use): a
     behaviour-preserving edit that defeats rules matching `np.` as text."""
@@ -1211,17 +1572,18 @@ def run_for_property(prop, repo, seed=0, jobs=None):
                 'splitassign', 'comp2loop', 'joinassign', 'renamepriv',
                 'flags', 'fstrings', 'lambdas', 'dictloops', 'guards',
                 'nestguards', 'nameargs', 'ctorcomps', 'calltables',
-                'ifexpstmt'):
+                'ifexpstmt', 'yoda', 'renameparams'):
         variants.append({'id': '%s-benign-%s-all' % (prop.lower(), how),
                          'property': prop, 'kind': 'benign', 'edits': [],
                          'transform': how, 'expect': None, 'clears': None,
                          'may_error': False})
     # the second half of every longer function extracted into a new private
     # helper: no check may report a violation ("cannot decide" is tolerated)
-    variants.append({'id': '%s-benign-tails-all' % prop.lower(),
-                     'property': prop, 'kind': 'benign', 'edits': [],
-                     'transform': 'tails', 'expect': None, 'clears': None,
-                     'may_error': True})
+    for how in ('tails', 'heads', 'predicates'):
+        variants.append({'id': '%s-benign-%s-all' % (prop.lower(), how),
+                         'property': prop, 'kind': 'benign', 'edits': [],
+                         'transform': how, 'expect': None, 'clears': None,
+                         'may_error': True})
     # seeded changes (from independent sub-agents) this property's check catches
     sdir = os.path.join(report.VERIF, 'seeded')
     if os.path.isdir(sdir):
